@@ -152,6 +152,14 @@ async def cx_{i}(nxt, pre):
         pre = None
     return pre
 
+async def cxd_{i}(nxt, pre):
+    if pre:
+        await trap("pre")
+    async with ExiterD(nxt):
+        pass
+        pre = None
+    return pre
+
 async def af_{i}(agen, pre):
     if pre:
         await trap("pre")
@@ -173,7 +181,18 @@ class Exiter(object):
         return False
 
 
-NS = {"types": types, "trap": trap, "Exiter": Exiter}
+class ExiterD(Exiter):
+    """like Exiter, but its __aexit__ unbinds its first parameter before it awaits: the frame below the exit then has
+    no first argument to tell whose exit it is - the context analysis of the owning frame fails (and says so)"""
+
+    async def __aexit__(s, *exc):
+        nxt = s.nxt
+        del s
+        await nxt
+        return False
+
+
+NS = {"types": types, "trap": trap, "Exiter": Exiter, "ExiterD": ExiterD}
 for _i in range(8):
     # every second family of link functions declares __tracebackhide__ without ever binding it (the helper idiom
     # `if quiet: __tracebackhide__ = True` with quiet false): such a frame is an ordinary, visible frame
@@ -269,6 +288,8 @@ def build(kinds, end, outer, pre):
             inner = AwGen(ch.reg(NS["co_" + d](inner, pre)))
         elif k == "aexit":
             inner = ch.reg(NS["cx_" + d](inner, pre))
+        elif k == "aexitd":
+            inner = ch.reg(NS["cxd_" + d](inner, pre))
         elif k == "asend":
             inner = ch.reg(NS["ag_" + d](inner, pre)).asend(None)
         elif k == "anext":
@@ -306,6 +327,13 @@ def specs(maxlen):
         for end in ENDS:
             for pre in (False, True):
                 yield (["yf"] * L, end, "gen", pre)
+
+
+def failing_analysis_specs():
+    """chains through a frame whose context analysis fails (ExiterD): the frames are what they are all the same"""
+    for kinds in (["aexitd"], ["co", "aexitd"], ["aexitd", "co"], ["gco", "aexitd", "asend"], ["aexitd", "aexitd"]):
+        for pre in (False, True):
+            yield (kinds, "trap", "co", pre)
 
 
 def long_specs():
